@@ -55,13 +55,14 @@ struct Shm {
 static Shm *shm;
 static const uint16_t kId = 0xA5A5;     // so that an uninitialised id painted 0xA5 matches the outstanding lookup
 static std::string g_tagname;
+static bool g_sock = false;            // deliver through the real receive path (UdpSocket::onSocketEvent, recvfrom() of common.h)
 
 static void emit(const char *line) { size_t n = strlen(line); ssize_t r = write(1, line, n); (void)r; }
 static void violation(std::string sig, const std::string &label, const Bytes &dg, const std::string &detail) {
   shm->viols++; if (sig.size() > 170) sig.resize(170);
   for (auto &e : shm->sigs) {
     if (e.sig[0] == 0) { strncpy(e.sig, sig.c_str(), sizeof(e.sig) - 1); }
-    if (sig == e.sig) { if (++e.n <= 3) { std::string l = "@VIOL sig=" + sig + " :: " + hex(dg) + "  [" + std::string(BUILD_TAG) + " " + label + "; " + detail + "]\n"; emit(l.c_str()); } return; }
+    if (sig == e.sig) { if (++e.n <= 3) { std::string l = "@VIOL sig=" + sig + " :: " + hex(dg) + "  [" + std::string(BUILD_TAG) + (g_sock ? " via-socket-event " : " ") + label + "; " + detail + "]\n"; emit(l.c_str()); } return; }
   }
 }
 static void outcome(const std::string &t) {
@@ -96,7 +97,6 @@ static void world_make() {
 }
 static const size_t kPaint = 48 * 1024;
 __attribute__((noinline)) static void paint(unsigned char v) { unsigned char buf[kPaint]; memset(buf, v, sizeof buf); asm volatile("" : : "r"(buf) : "memory"); }
-static bool g_sock = false;            // deliver through the real receive path (UdpSocket::onSocketEvent, recvfrom() of common.h)
 __attribute__((noinline)) static void deliver(const uint8_t *p, size_t n, int rx) {
   if (!g_sock) { w_dns->feed(p, n, *w_from); return; }
   socket_event(w_dns, rx, p, n, htonl(0x7f000001u));
